@@ -194,7 +194,7 @@ def trace_cfg(nodes, invariants, module_spec="TraceSpec", extra_consts=None):
     }
     if extra_consts:
         c.update(extra_consts)
-    return vp.cfg_text(module_spec, c, list(invariants) + ["DriftReport"], (), None,
+    return vp.cfg_text(module_spec, c, ["OnlyRealNodes"] + list(invariants) + ["DriftReport"], (), None,
                        ["POSTCONDITION Consumed"])
 
 
